@@ -344,15 +344,18 @@ def remove_previous_run_locks(args):
     # A fresh run in a used output folder (or on used save files) invalidates whatever an earlier run left there.
     # Its lock files must go before the new parameters are saved: otherwise this run, if it is killed early and
     # then continued with --resume, would trust data that was computed with other options or inputs.
+    # only the chromosome name is a wildcard: the experiment name (prefix) is part of the file name and may itself
+    # contain glob metacharacters (-p "run[1]"), so the whole literal part of every pattern is escaped
     lock_patterns = []
     for sample in args.input_data.samples:
-        lock_patterns += [sample.out_raw_file + "_lock", sample.read_group_file + "_lock",
-                          sample.out_raw_file + "_*_collected", sample.out_raw_file + "_*_processed"]
+        lock_patterns += [glob.escape(sample.out_raw_file + "_lock"), glob.escape(sample.read_group_file + "_lock"),
+                          glob.escape(sample.out_raw_file) + "_*_collected",
+                          glob.escape(sample.out_raw_file) + "_*_processed"]
     if args.read_assignments:
         for saves_prefix in args.read_assignments:
-            lock_patterns.append(saves_prefix + "_*_processed")
+            lock_patterns.append(glob.escape(saves_prefix) + "_*_processed")
     for pattern in lock_patterns:
-        for lock_file in glob.glob(glob.escape(os.path.dirname(pattern)) + os.sep + os.path.basename(pattern)):
+        for lock_file in glob.glob(pattern):
             os.remove(lock_file)
 
 
